@@ -70,6 +70,7 @@
 #include <AIToolbox/POMDP/Algorithms/Witness.hpp>
 #include <AIToolbox/POMDP/Algorithms/LinearSupport.hpp>
 #include <AIToolbox/POMDP/Algorithms/SARSOP.hpp>
+#include <AIToolbox/POMDP/Algorithms/GapMin.hpp>
 #include <AIToolbox/POMDP/Algorithms/PBVI.hpp>
 #include <AIToolbox/POMDP/Algorithms/PERSEUS.hpp>
 #include <AIToolbox/POMDP/Algorithms/POMCP.hpp>
@@ -363,9 +364,13 @@ static void scenarioPomdp(vio::Cursor & c, vio::Out & o) {
     emitRuns(o, runs);
 }
 
-// sarsop <tol> <pomdp1> <belief1> <pomdp2> <belief2>
+// sarsop <tol1> <tol2> <pomdp1> <belief1> <pomdp2> <belief2>
+//   the complete returned tuple (lb, ub, the whole lower-bound VList in order, ubQ) of a solve of problem 2
+//   with tolerance tol2:  run 0 fresh solver;  run 1 a solver constructed with tol1 that solved problem 1
+//   (which moves the adaptive pruning threshold delta_) and then had setTolerance(tol2);  run 2 problem 2 twice.
+// extra: X <delta_ after the first solve of run 1> <initial delta>
 static void scenarioSarsop(vio::Cursor & c, vio::Out & o) {
-    double tol = c.nextDouble();
+    double tol1 = c.nextDouble(), tol2 = c.nextDouble();
     PomdpT t1 = readPomdp(c); auto b1 = readBelief(c);
     PomdpT t2 = readPomdp(c); auto b2 = readBelief(c);
     auto m1 = mkPomdp(t1), m2 = mkPomdp(t2);
@@ -373,16 +378,82 @@ static void scenarioSarsop(vio::Cursor & c, vio::Out & o) {
         auto [lb, ub, vl, q] = s(m, b);
         if (r) { r->d(lb); r->d(ub); dumpVList(*r, vl); dumpMat(*r, q); }
     };
-    // SARSOP has no iteration bound and (until fixes/C12-sawtooth-weights.patch) may read an empty
-    // point list: the three runs are made in one forked child with a 10 s alarm; the child returns
-    // the runs separated by "|" tokens
+    // SARSOP has no iteration bound: the runs are made in one forked child with an alarm; the child
+    // returns the runs separated by "|" tokens, then the observed delta
     Run all = forked([&](Run & r) {
-        { POMDP::SARSOP s(tol); solve(&r, s, m2, b2); } r.s("|");
-        { POMDP::SARSOP s(tol); solve(nullptr, s, m1, b1); solve(&r, s, m2, b2); } r.s("|");
-        { POMDP::SARSOP s(tol); solve(nullptr, s, m2, b2); solve(nullptr, s, m1, b1); solve(&r, s, m2, b2); }
-    }, 10);
+        { POMDP::SARSOP s(tol2); solve(&r, s, m2, b2); } r.s("|");
+        double moved = 0.0;
+        { POMDP::SARSOP s(tol1); solve(nullptr, s, m1, b1); moved = s.delta_; s.setTolerance(tol2); solve(&r, s, m2, b2); } r.s("|");
+        { POMDP::SARSOP s(tol2); solve(nullptr, s, m2, b2); solve(&r, s, m2, b2); } r.s("|");
+        r.d(moved);
+    }, 3);
     std::vector<Run> runs(1);
     for (const auto & t : all.v) { if (t == "|") runs.emplace_back(); else runs.back().s(t); }
+    Run extra;
+    if (runs.size() == 4) { extra = runs.back(); runs.pop_back(); }
+    emitRuns(o, runs);
+    o << "X"; for (const auto & t : extra.v) o << t;
+    o << 0.1;
+}
+
+// gapmin <tol> <digits> <pomdp1> <belief1> <pomdp2> <belief2>
+//   GapMin adapts tolerance_ while it runs and resets it from initialTolerance_ on entry; complete tuple
+//   (lb, ub, lbVList, ubQ) fresh vs. after a solve of problem 1 vs. twice.  Forked child + alarm.
+// extra: X <tolerance_ after the first solve of run 1> <initial tolerance>
+static void scenarioGapMin(vio::Cursor & c, vio::Out & o) {
+    double tol = c.nextDouble(); unsigned digits = (unsigned) c.nextSize();
+    PomdpT t1 = readPomdp(c); auto b1 = readBelief(c);
+    PomdpT t2 = readPomdp(c); auto b2 = readBelief(c);
+    auto m1 = mkPomdp(t1), m2 = mkPomdp(t2);
+    auto solve = [](Run * r, POMDP::GapMin & s, const POMDP::Model<MDP::Model> & m, const POMDP::Belief & b) {
+        auto [lb, ub, vl, q] = s(m, b);
+        if (r) { r->d(lb); r->d(ub); dumpVList(*r, vl); dumpMat(*r, q); }
+    };
+    Run all = forked([&](Run & r) {
+        { POMDP::GapMin s(tol, digits); solve(&r, s, m2, b2); } r.s("|");
+        double moved = 0.0;
+        { POMDP::GapMin s(tol, digits); solve(nullptr, s, m1, b1); moved = s.tolerance_; solve(&r, s, m2, b2); } r.s("|");
+        { POMDP::GapMin s(tol, digits); solve(nullptr, s, m2, b2); solve(&r, s, m2, b2); } r.s("|");
+        r.d(moved);
+    }, 4);
+    std::vector<Run> runs(1);
+    for (const auto & t : all.v) { if (t == "|") runs.emplace_back(); else runs.back().s(t); }
+    Run extra;
+    if (runs.size() == 4) { extra = runs.back(); runs.pop_back(); }
+    emitRuns(o, runs);
+    o << "X"; for (const auto & t : extra.v) o << t;
+    o << tol;
+}
+
+// pbreuse <alg> <seed> <pomdp1> <pomdp2>     alg: pbvi | perseus
+//   point-based solver object reuse.  The object's engine and the Seeder (the BeliefGenerator made inside
+//   operator() takes a seed from it) are part of the declared state, so both are put in the same state
+//   right before the call under test:  run 0 fresh object;  run 1 object that solved problem 1 before;
+//   run 2 object that solved problem 2 before.
+static void scenarioPbReuse(vio::Cursor & c, vio::Out & o) {
+    std::string alg = c.next(); unsigned seed = (unsigned) c.nextSize();
+    PomdpT t1 = readPomdp(c), t2 = readPomdp(c);
+    auto m1 = mkPomdp(t1), m2 = mkPomdp(t2);
+    double minR = 0.0;
+    for (size_t x = 0; x < t2.S; ++x) for (size_t a = 0; a < t2.A; ++a) minR = std::min(minR, t2.R[x][a][0]);
+    double minR1 = 0.0;
+    for (size_t x = 0; x < t1.S; ++x) for (size_t a = 0; a < t1.A; ++a) minR1 = std::min(minR1, t1.R[x][a][0]);
+    std::vector<Run> runs(3);
+    for (int k = 0; k < 3; ++k) {
+        if (alg == "pbvi") {
+            POMDP::PBVI s(6, 2, 0.0);
+            if (k == 1) (void) s(m1);
+            if (k == 2) (void) s(m2);
+            Seeder::setRootSeed(seed); s.rand_.seed(seed + 1);
+            auto [var, vf] = s(m2); runs[k].d(var); dumpVF(runs[k], vf);
+        } else if (alg == "perseus") {
+            POMDP::PERSEUS s(6, 2, 0.0);
+            if (k == 1) (void) s(m1, minR1);
+            if (k == 2) (void) s(m2, minR);
+            Seeder::setRootSeed(seed); s.rand_.seed(seed + 1);
+            auto [var, vf] = s(m2, minR); runs[k].d(var); dumpVF(runs[k], vf);
+        } else throw std::logic_error("unknown point-based solver");
+    }
     emitRuns(o, runs);
 }
 
@@ -558,6 +629,8 @@ int main(int argc, char ** argv) {
         else if (kind == "pomdp") scenarioPomdp(c, o);
         else if (kind == "sarsop") scenarioSarsop(c, o);
         else if (kind == "seeded") scenarioSeeded(c, o);
+        else if (kind == "gapmin") scenarioGapMin(c, o);
+        else if (kind == "pbreuse") scenarioPbReuse(c, o);
         else if (kind == "fg") scenarioFG(c, o);
         else if (kind == "ve") scenarioVE(c, o);
         else if (kind == "rils") scenarioRils(c, o);
